@@ -163,8 +163,8 @@ Print Assumptions C01_close_shapes_ok.
    closed; (2) once a direction has ended Join is never stuck before both goroutines are done, each step
    decreases a measure <= 6, and concretely nine steps finish it; (3) then both underlying connections
    are closed. *)
-Theorem C01_close_propagates : forall W, all_inner W = true -> forall sched,
-  let st := j_run W sched (j_init W) in
+Theorem C01_close_propagates : forall W, all_inner W = true ->
+  forall st, (exists sched, st = j_run W sched (j_init W)) ->
   (Forall (fun n => 0 <= n <= 1) (j_calls st) /\
    (1 <= j_baseB st -> j_calls st = repeat 1 (length W) /\ (W <> [] -> j_baseB st = 1)) /\
    (j_baseB st = 0 -> j_calls st = repeat 0 (length W))) /\
@@ -174,7 +174,7 @@ Theorem C01_close_propagates : forall W, all_inner W = true -> forall sched,
    (y_enabled st = true -> j_remaining (j_step W st EvY) = j_remaining st - 1) /\
    0 <= j_remaining st <= 6 /\ (j_remaining st = 0 <-> j_all_done st = true)) /\
   (j_triggered st = true ->
-   let st' := j_run W j_drain st in j_all_done st' = true /\ 1 <= j_baseA st' /\ 1 <= j_baseB st').
+   j_all_done (j_run W j_drain st) = true /\ 1 <= j_baseA (j_run W j_drain st) /\ 1 <= j_baseB (j_run W j_drain st)).
 Proof. exact close_propagates_all. Qed.
 Print Assumptions C01_close_propagates.
 
